@@ -2,6 +2,7 @@ import JediModel.Lemmas.PyCore
 import JediModel.Lemmas.PyCoreExact
 import JediModel.Gen.C02
 import JediModel.Lemmas.ArgBind
+import JediModel.Lemmas.FlowCache
 /-! # C02 — Inferred types agree with what the program does when executed
 
 `evalC` is the concrete semantics of the PyCore fragment (validated against CPython on every
@@ -260,5 +261,63 @@ theorem bind_without_push_back_loses_keyword :
   decide
 
 end Bind
+
+/-! ## Loop unrolling and the per-node inference cache (Model/FlowCache)
+
+`get_yield_lazy_values` infers the yields of a generator's top-level `for` once per element of
+the iterated sequence, the loop variable predefined; `infer_node` / `_infer_node_if_inferred`
+decide per node whether the cached result of an earlier iteration may be served. -/
+section Flow
+open JediModel.FlowCache
+
+/-- the cache policy as read from the source by the translator -/
+def policySrc : Policy :=
+  ⟨JediModel.Gen.C02.cacheDirectBypass,
+   if JediModel.Gen.C02.cacheAncestorBypassUnconditional then .always else .ifMentions⟩
+
+/-- **The source has the shape the model transcribes**: a node whose nearest enclosing if/for
+statement has predefined names is inferred afresh; so is a node with *any* ancestor that has
+predefined names (unconditionally); every element of the sequence predefines the loop variable
+anew around all yields of that `for`. -/
+theorem flow_source_is_modelled :
+    policySrc = policyRef ∧ JediModel.Gen.C02.unrollPredefinesPerElement = true ∧
+    JediModel.Gen.C02.sameForYieldsJoin = true := by
+  decide
+
+/-- **Unrolled iterations agree with execution.**  For every loop body (assignments whose
+right-hand side is the loop variable, an earlier local or a constant, nested in any if/for
+statements inside the unrolled `for`), every yielded local and every sequence of values: the
+values jedi infers for the successive elements - with the cache living on from one iteration to
+the next, whatever it holds at the start - are exactly the values the generator yields, element
+by element.  No stale result of an earlier iteration is ever served. -/
+theorem unrolled_loop_sound (forId : FlowId) (loopName : Name) (body : List FlowCache.Stmt) (y : Nat)
+    (vs : List FlowCache.Val) (c : Cache) (hall : ∀ s ∈ body, forId ∈ s.flows) :
+    unrolled policySrc forId loopName body y vs c = executed body y vs := by
+  rw [flow_source_is_modelled.1]
+  exact unrolled_ref forId loopName body y hall vs c
+
+/-- `for box in boxes:` (for 1, loop variable 0) / `if ..:` (if 2) / `inner = box` / `result = inner`
+/ `yield result` over two different values -/
+def bodyExample : List FlowCache.Stmt := [⟨.loopVar, [2, 1], [0]⟩, ⟨.loc 0, [2, 1], [5]⟩]
+
+example : (∀ s ∈ bodyExample, 1 ∈ s.flows) ∧
+    unrolled policySrc 1 0 bodyExample 1 [7, 8] [] = [some 7, some 8] := by
+  decide
+
+/-- **The ancestor rule cannot be weakened** to "only nodes that mention a predefined name are
+inferred afresh": `result = inner` does not mention the loop variable, sits in a nested `if`, is
+cached in the first iteration and replayed in the second - the second value is lost. -/
+theorem unrolled_loop_mention_rule_witness :
+    unrolled ⟨true, .ifMentions⟩ 1 0 bodyExample 1 [7, 8] [] = [some 7, some 7] ∧
+    executed bodyExample 1 [7, 8] = [some 7, some 8] := by
+  decide
+
+/-- **Nor may a node directly inside the unrolled `for` be served from the cache** -/
+theorem unrolled_loop_direct_cache_witness :
+    unrolled ⟨false, .always⟩ 1 0 [(⟨.loopVar, [1], [0]⟩ : FlowCache.Stmt)] 0 [7, 8] [] = [some 7, some 7] ∧
+    executed [(⟨.loopVar, [1], [0]⟩ : FlowCache.Stmt)] 0 [7, 8] = [some 7, some 8] := by
+  decide
+
+end Flow
 
 end JediModel.Props.C02
